@@ -312,6 +312,9 @@ type c20Call struct {
 	// Slots: name → substitution of the hostile string into the base arguments
 	Slots []c20Slot
 	Run   func(a c20Args, load bool) error
+	// FnOf: entry point a recorded statement is attributed to (calls that reach other entry points
+	// through function values, like BulkAdd → StreamBatch → AddVertex/AddEdge); nil: Fn
+	FnOf func(q string) string
 	// Canned answers of the database for this call
 	Canned func(a c20Args) []c20Canned
 }
@@ -405,6 +408,37 @@ func c20Calls() []c20Call {
 		Slots: []c20Slot{c20P("id"), c20P("label"), c20P("from"), c20P("to")},
 		Run: func(a c20Args, _ bool) error {
 			return pg().AddEdge([]*gdbi.Edge{{ID: a.P["id"], Label: a.P["label"], From: a.P["from"], To: a.P["to"]}})
+		}})
+	// BulkAdd hands the elements to AddVertex/AddEdge (bound parameters); any other statement it
+	// sends is attributed to BulkAdd itself, where no extracted site explains it
+	bulkFn := func(q string) string {
+		switch {
+		case strings.HasPrefix(strings.TrimSpace(q), "INSERT INTO "+c20V+" "):
+			return "Graph.AddVertex"
+		case strings.HasPrefix(strings.TrimSpace(q), "INSERT INTO "+c20E+" "):
+			return "Graph.AddEdge"
+		}
+		return "Graph.BulkAdd"
+	}
+	bulk := func(els ...*gdbi.GraphElement) error {
+		ch := make(chan *gdbi.GraphElement, len(els))
+		for _, e := range els {
+			ch <- e
+		}
+		close(ch)
+		return pg().BulkAdd(ch)
+	}
+	add(c20Call{Drv: "psql", Fn: "Graph.BulkAdd", Variant: "vertices", Base: c20Args{P: map[string]string{"id": "v1", "label": "L"}},
+		Slots: []c20Slot{c20P("id"), c20P("label")}, FnOf: bulkFn,
+		Run: func(a c20Args, _ bool) error {
+			return bulk(&gdbi.GraphElement{Graph: "g", Vertex: &gdbi.Vertex{ID: a.P["id"], Label: a.P["label"], Data: map[string]interface{}{"k": a.P["id"]}}},
+				&gdbi.GraphElement{Graph: "g", Vertex: &gdbi.Vertex{ID: "v2", Label: "L"}})
+		}})
+	add(c20Call{Drv: "psql", Fn: "Graph.BulkAdd", Variant: "edges", Base: c20Args{P: map[string]string{"id": "e1", "label": "L", "from": "v1", "to": "v9"}},
+		Slots: []c20Slot{c20P("id"), c20P("label"), c20P("from"), c20P("to")}, FnOf: bulkFn,
+		Run: func(a c20Args, _ bool) error {
+			// the endpoints are not part of the stream (a dangling load)
+			return bulk(&gdbi.GraphElement{Graph: "g", Edge: &gdbi.Edge{ID: a.P["id"], Label: a.P["label"], From: a.P["from"], To: a.P["to"]}})
 		}})
 	add(c20Call{Drv: "psql", Fn: "Graph.DelVertex", Base: c20Args{P: map[string]string{"key": "v1"}}, Slots: []c20Slot{c20P("key")},
 		Run: func(a c20Args, _ bool) error { return pg().DelVertex(a.P["key"]) }})
@@ -665,6 +699,9 @@ func c20Emit(r *Run, c *c20Call, hostile c20Args, slot string) {
 	}
 	for i := 0; i < n; i++ {
 		o := common("stmt")
+		if c.FnOf != nil {
+			o["fn"] = c.FnOf(bst[i].Q)
+		}
 		o["i"] = i
 		o["hint"] = hst[i].Q
 		o["bhint"] = bst[i].Q
